@@ -449,7 +449,7 @@ class SkelEval(Eval):
             frame[(q, p['pat'].get('name'))] = self.ev(a)
         self.params.append(frame)
         try:
-            return self.ev(self.ogp.summaries[q])
+            return self.ev(getattr(self.ogp, 'raw', self.ogp.summaries)[q])
         finally:
             self.params.pop()
 
@@ -1025,7 +1025,7 @@ def static_expand(ogp, t):
 
 
 def find_output_template(ogp):
-    for q, v in ogp.summaries.items():
+    for q, v in getattr(ogp, 'raw', ogp.summaries).items():
         for t in E.find_templates(v, lambda t: t[3] == q and sum(1 for it in t[2] if it[0] in ('hole', 'rep')) >= 10 and all(it[0] != 'tok' for it in t[2])):
             if any('WriteOptions' in p['ty'] for p in ogp.crate.fns[q]['params']):
                 return q, t
